@@ -1,0 +1,27 @@
+//go:build verif && !windows
+
+package localfs
+
+import (
+	"os"
+	"syscall"
+	"time"
+)
+
+// This file is compiled only with the "verif" build tag. It lets the external
+// verification harness evaluate the (device, inode) -> QID path mapping on
+// arbitrary pairs; real files rarely have numbers outside the compact encoding.
+
+type verifInfo struct{ st syscall.Stat_t }
+
+func (verifInfo) Name() string       { return "verif" }
+func (verifInfo) Size() int64        { return 0 }
+func (verifInfo) Mode() os.FileMode  { return 0 }
+func (verifInfo) ModTime() time.Time { return time.Time{} }
+func (verifInfo) IsDir() bool        { return false }
+func (v verifInfo) Sys() any         { return &v.st }
+
+// VerifQIDPath returns the QID path localfs assigns to (dev, ino).
+func VerifQIDPath(dev, ino uint64) (uint64, error) {
+	return localToQid("", verifInfo{syscall.Stat_t{Dev: dev, Ino: ino}})
+}
